@@ -45,7 +45,7 @@ def build(ses, rep, N):
 
 def run(ses, rep):
     quick = rep.tier == "quick"
-    N = 4 if quick else 6
+    N = 4 if quick else 5          # (N = 6 did not finish within 35 minutes on this image: stated bound of the thorough tier is 5)
     rep.bounds.update({"literal_chars": N, "alphabet": [chr(a) if 32 < a < 127 else hex(a) for a in ALPHA], "quote_styles": 4, "input_quotes": 2})
     rep.assumptions += ["the input literal is lexically valid for its quote (documented precondition: the program parses)",
                         "regex::Regex::replace_all has leftmost-first non-overlapping semantics (regex front end, vcheck/regexfe.py)",
